@@ -936,15 +936,18 @@ func setJSONFilterCondition(cond *fieldFilterCond, filterVal any, jsonPath clien
 		for subKey, subVal := range subCondMap {
 			cond.arrOp = cond.op
 			cond.op = subKey.(*mapper.Operator).Operation
-			jsonVal, err := client.NewJSONWithPath(subVal, jsonPath)
-			if err != nil {
-				return err
-			}
-			cond.val = client.NewNormalJSON(jsonVal)
 			// the array sub condition (_any, _all or _none) is supposed to have only 1 record
-			break
+			return setJSONFilterConditionValue(cond, subVal, jsonPath)
 		}
-	} else if cond.op == opIn {
+		return nil
+	}
+	return setJSONFilterConditionValue(cond, filterVal, jsonPath)
+}
+
+// setJSONFilterConditionValue sets the value of the given condition (whose operator is already known)
+// to the filter value placed at the given JSON path.
+func setJSONFilterConditionValue(cond *fieldFilterCond, filterVal any, jsonPath client.JSONPath) error {
+	if cond.op == opIn {
 		// values in _in operator should not be considered as array elements just because they happened
 		// to be written as an array in the filter. We need to convert them to normal values and
 		// treat them individually.
